@@ -10,6 +10,7 @@ let () =
      while true do
        let line = input_line stdin in
        if String.length line > 0 && line.[0] <> ';' then begin
+         Registry.model_col := "-";
          let out =
            try f (Sexp.parse_string line)
            with
@@ -17,7 +18,7 @@ let () =
            | Stack_overflow -> "?\terror\t-\tstack overflow"
            | e -> Printf.sprintf "?\terror\t-\texception %s" (Printexc.to_string e)
          in
-         print_endline out
+         print_endline (if Registry.emit_model then out ^ "\t" ^ !Registry.model_col else out)
        end
      done
    with End_of_file -> ());
